@@ -24,6 +24,10 @@
 (*   _ByteBudget.release       Release (notify_all: every waiter is        *)
 (*                             re-evaluated)                               *)
 (*                                                                         *)
+(* A save without any concurrency (max_workers None/1, cfg.plain) is the   *)
+(* caller running _write_serial: callback (no lock), tensor lock, write    *)
+(* (no budget), unlock, for every tensor of every file in order.           *)
+(*                                                                         *)
 (* Thread ids: 0 = the caller.  Without concurrent shards the caller is    *)
 (* the only "driver" (it runs _write_parallel itself) and its pool         *)
 (* workers are 1..ni.  With concurrent shards the drivers are 1..nd and    *)
@@ -82,10 +86,13 @@ MkBase(raw) ==
       \* as _write_external_tensors computes them
       nd      == IF sharded THEN PMin(raw.mw, ns) ELSE 1
       ni      == IF sharded THEN PMax(1, (raw.mw - nd) \div nd) ELSE raw.mw
+      \* no concurrency at all: max_workers None/1 (one file or shards written one after the other by the caller),
+      \* or a single tensor.  The caller runs _write_serial itself: callback without any lock, tensor lock, NO budget
+      plain   == ~sharded /\ (raw.mw <= 1 \/ Len(raw.size) <= 1)
   IN [n |-> Len(raw.size), size |-> raw.size, obj |-> raw.obj, fail |-> raw.fail,
       cbfail |-> raw.cbfail, fkind |-> raw.fkind,
       cap |-> PMax(raw.cap, 1), mw |-> raw.mw, maxShard |-> raw.maxShard, ns |-> ns,
-      shardOf |-> lay.sh, off |-> lay.off, sharded |-> sharded, nd |-> nd, ni |-> ni]
+      shardOf |-> lay.sh, off |-> lay.off, sharded |-> sharded, plain |-> plain, nd |-> nd, ni |-> ni]
 
 BDrv(c)      == IF c.sharded THEN 1..c.nd ELSE {0}
 BWrkOf(c, d) == IF c.ni > 1 THEN {10 * d + k : k \in 1..c.ni} ELSE {}
@@ -109,7 +116,7 @@ MkCfg(raw) ==
   IN [n |-> c.n, size |-> c.size, obj |-> c.obj, fail |-> c.fail, cbfail |-> c.cbfail, fkind |-> c.fkind,
       cap |-> c.cap, mw |-> c.mw,
       maxShard |-> c.maxShard, ns |-> c.ns, shardOf |-> c.shardOf, off |-> c.off,
-      sharded |-> c.sharded, nd |-> c.nd, ni |-> c.ni,
+      sharded |-> c.sharded, plain |-> c.plain, nd |-> c.nd, ni |-> c.ni,
       drv |-> drv, wrkOf |-> [d \in drv |-> BWrkOf(c, d)], wrk |-> wrk, thr |-> {0} \cup drv \cup wrk,
       objs |-> {c.obj[i] : i \in 1..c.n},
       tens |-> [s \in 1..c.ns |-> BTensorsOf(c, s)],
@@ -169,13 +176,15 @@ CanAcq(t) == IF Big(t) THEN ~oversized ELSE inFlight + Sz(t) <= cfg.cap
 
 InitFor(c) ==
   /\ cfg = c
-  /\ pc = [t \in Thr(c) |-> IF t = 0 THEN (IF c.sharded THEN "cwait" ELSE "pmain")
+  /\ pc = [t \in Thr(c) |-> IF t = 0 THEN (IF c.sharded THEN "cwait" ELSE IF c.plain THEN "inCb" ELSE "pmain")
                             ELSE IF t \in Drv(c) THEN "didle" ELSE "idle"]
-  /\ task = [t \in Thr(c) |-> 0]
+  \* plain: the caller is about to invoke the callback of the first tensor; all tensors (of all files) follow in order
+  /\ task = [t \in Thr(c) |-> IF c.plain /\ t = 0 THEN 1 ELSE 0]
   /\ job = [d \in Drv(c) |-> IF c.sharded THEN 0 ELSE 1]
-  /\ queue = [d \in Drv(c) |-> IF c.sharded THEN <<>> ELSE TensorsOf(c, 1)]
+  /\ queue = [d \in Drv(c) |-> IF c.sharded THEN <<>>
+                               ELSE IF c.plain THEN [k \in 1..(c.n - 1) |-> k + 1] ELSE TensorsOf(c, 1)]
   /\ shardQ = IF c.sharded THEN [s \in 1..c.ns |-> s] ELSE <<>>
-  /\ tstat = [i \in 1..c.n |-> "queued"]
+  /\ tstat = [i \in 1..c.n |-> IF c.plain /\ i = 1 THEN "running" ELSE "queued"]
   /\ jstat = [s \in 1..c.ns |-> IF c.sharded THEN "queued" ELSE "running"]
   /\ exc = {}
   /\ hasFile = {}
@@ -295,22 +304,6 @@ OCbAcq(t) ==
   /\ pc' = [pc EXCEPT ![t] = "inCb"]
   /\ UNCHANGED <<cfg, task, vPool, exc, hasFile, tlock, icb, flock, vBud, vOut>>
 
-\* the user's progress callback runs
-CbRun(t) ==
-  /\ pc[t] = "inCb" /\ task[t] \notin cfg.cbfail
-  /\ cbCount' = [cbCount EXCEPT ![task[t]] = @ + 1]
-  /\ pc' = [pc EXCEPT ![t] = IF cfg.sharded THEN "ocbRel" ELSE "icbRel"]
-  /\ UNCHANGED <<cfg, task, vPool, exc, hasFile, vLocks, vBud, file>>
-
-\* the user's progress callback runs and raises (indices in cfg.cbfail) - whatever the KIND of the exception
-\* (cfg.fkind is not read): the `with` statements around the call release the callback lock(s) on the way out
-CbFail(t) ==
-  /\ pc[t] = "inCb" /\ task[t] \in cfg.cbfail
-  /\ cbCount' = [cbCount EXCEPT ![task[t]] = @ + 1]
-  /\ exc' = exc \cup {t}
-  /\ pc' = [pc EXCEPT ![t] = IF cfg.sharded THEN "ocbRel" ELSE "icbRel"]
-  /\ UNCHANGED <<cfg, task, vPool, hasFile, vLocks, vBud, file>>
-
 \* an exception leaves the loop of _write_serial (a shard driver): the tensors not yet written never are
 SerialRaise(t) ==
   /\ tstat' = [i \in 1..cfg.n |->
@@ -320,6 +313,24 @@ SerialRaise(t) ==
   /\ queue' = [queue EXCEPT ![t] = <<>>]
   /\ task' = [task EXCEPT ![t] = 0]
   /\ pc' = [pc EXCEPT ![t] = "dfinish"]
+
+\* the user's progress callback runs
+CbRun(t) ==
+  /\ pc[t] = "inCb" /\ task[t] \notin cfg.cbfail
+  /\ cbCount' = [cbCount EXCEPT ![task[t]] = @ + 1]
+  /\ pc' = [pc EXCEPT ![t] = IF cfg.plain THEN "lockWait" ELSE IF cfg.sharded THEN "ocbRel" ELSE "icbRel"]
+  /\ UNCHANGED <<cfg, task, vPool, exc, hasFile, vLocks, vBud, file>>
+
+\* the user's progress callback runs and raises (indices in cfg.cbfail) - whatever the KIND of the exception
+\* (cfg.fkind is not read): the `with` statements around the call release the callback lock(s) on the way out
+CbFail(t) ==
+  /\ pc[t] = "inCb" /\ task[t] \in cfg.cbfail
+  /\ cbCount' = [cbCount EXCEPT ![task[t]] = @ + 1]
+  /\ exc' = exc \cup {t}
+  /\ IF cfg.plain                        \* no lock around the callback: the exception leaves _write_serial
+     THEN SerialRaise(t)
+     ELSE pc' = [pc EXCEPT ![t] = IF cfg.sharded THEN "ocbRel" ELSE "icbRel"] /\ UNCHANGED <<task, queue, tstat>>
+  /\ UNCHANGED <<cfg, job, shardQ, jstat, hasFile, vLocks, vBud, file>>
 
 OCbRel(t) ==
   /\ pc[t] = "ocbRel"
@@ -365,19 +376,19 @@ Reserve(t) ==
 
 \* _ByteBudget.acquire, first evaluation of the predicate
 AcqFit(t) ==
-  /\ pc[t] = "holdLock" /\ ~Big(t) /\ CanAcq(t)
+  /\ pc[t] = "holdLock" /\ ~cfg.plain /\ ~Big(t) /\ CanAcq(t)
   /\ Reserve(t) /\ UNCHANGED waiters
   /\ pc' = [pc EXCEPT ![t] = "reserved"]
   /\ UNCHANGED <<cfg, task, vPool, exc, hasFile, vLocks, vOut>>
 
 AcqOver(t) ==
-  /\ pc[t] = "holdLock" /\ Big(t) /\ CanAcq(t)
+  /\ pc[t] = "holdLock" /\ ~cfg.plain /\ Big(t) /\ CanAcq(t)
   /\ Reserve(t) /\ UNCHANGED waiters
   /\ pc' = [pc EXCEPT ![t] = "reserved"]
   /\ UNCHANGED <<cfg, task, vPool, exc, hasFile, vLocks, vOut>>
 
 AcqBlock(t) ==
-  /\ pc[t] = "holdLock" /\ ~CanAcq(t)
+  /\ pc[t] = "holdLock" /\ ~cfg.plain /\ ~CanAcq(t)
   /\ waiters' = waiters \cup {t}
   /\ pc' = [pc EXCEPT ![t] = "budWait"]
   /\ UNCHANGED <<cfg, task, vPool, exc, hasFile, vLocks, inFlight, oversized, vOut>>
@@ -395,18 +406,21 @@ WakeBlock(t) ==
   /\ UNCHANGED <<cfg, pc, task, vPool, exc, hasFile, vLocks, inFlight, oversized, vOut>>
 
 \* tensor.tofile (or file.write(tensor.tobytes())) at the tensor's offset
+\* (plain: there is no budget - the tensor is evaluated right after its lock was taken)
+EvalPc    == IF cfg.plain THEN "holdLock" ELSE "reserved"
+AfterEval == IF cfg.plain THEN "unlocking" ELSE "releasing"
 Write(t) ==
-  /\ pc[t] = "reserved" /\ Ob(t) \notin cfg.fail
+  /\ pc[t] = EvalPc /\ Ob(t) \notin cfg.fail
   /\ file' = WriteAt(cfg, file, task[t])
-  /\ pc' = [pc EXCEPT ![t] = "releasing"]
+  /\ pc' = [pc EXCEPT ![t] = AfterEval]
   /\ UNCHANGED <<cfg, task, vPool, exc, hasFile, vLocks, vBud, cbCount>>
 
 \* a failing tensor raises (in tofile / tobytes / numpy) and writes nothing - whatever the KIND of the
 \* exception (cfg.fkind is not read): the finally clause releases the reservation, the `with` the tensor lock
 WriteFail(t) ==
-  /\ pc[t] = "reserved" /\ Ob(t) \in cfg.fail
+  /\ pc[t] = EvalPc /\ Ob(t) \in cfg.fail
   /\ exc' = exc \cup {t}
-  /\ pc' = [pc EXCEPT ![t] = "releasing"]
+  /\ pc' = [pc EXCEPT ![t] = AfterEval]
   /\ UNCHANGED <<cfg, task, vPool, hasFile, vLocks, vBud, vOut>>
 
 \* _ByteBudget.release in the finally clause: undo the reservation, notify_all
@@ -431,7 +445,7 @@ TUnlock(t) ==
           THEN /\ tstat' = [tstat EXCEPT ![task[t]] = "ok", ![Head(queue[t])] = "running"]
                /\ task' = [task EXCEPT ![t] = Head(queue[t])]
                /\ queue' = [queue EXCEPT ![t] = Tail(@)]
-               /\ pc' = [pc EXCEPT ![t] = "ocbWait"]
+               /\ pc' = [pc EXCEPT ![t] = IF cfg.plain THEN "inCb" ELSE "ocbWait"]
           ELSE /\ tstat' = [tstat EXCEPT ![task[t]] = "ok"]
                /\ task' = [task EXCEPT ![t] = 0]
                /\ pc' = [pc EXCEPT ![t] = "dfinish"]
@@ -485,7 +499,7 @@ Obs ==
    over     |-> oversized,
    wait     |-> waiters,
    incb     |-> {t \in T : pc[t] = "inCb"},                                   \* inside the user callback
-   eval     |-> {<<t, Ob(t)>> : t \in {u \in T : pc[u] = "reserved"}},        \* inside tensor.tofile
+   eval     |-> {<<t, Ob(t)>> : t \in {u \in T : pc[u] = EvalPc}},            \* inside tensor.tofile
    held     |-> {<<t, Sz(t)>> : t \in {u \in T : pc[u] \in {"reserved", "releasing"}}},  \* acquire returned, release not yet
    cb       |-> cbCount,
    busy     |-> {t \in T \ {0} : pc[t] \notin {"idle", "didle"}},
